@@ -40,6 +40,8 @@ class C03(Prop):
                 "y": ic.gen_y(rng, n, rng.choice(["small", "digits", "dyadic", "neg", "wide", "tiny"])),
                 "w": ic.gen_w(rng, n),
             }
+        for k in range(250 if tier == "quick" else 2500):
+            yield ic.gen_dtype_case(rng, "expectile", rng.choice(ic.DYADIC_LEVELS[:9]))
         for k in range(200 if tier == "quick" else 3000):
             n = rng.randint(1, 30)
             yield {"stream": "half", "f": "expectile", "level": "1/2", "inc": rng.random() < 0.5, "y": ic.gen_y(rng, n), "w": ic.gen_w(rng, n)}
